@@ -33,13 +33,13 @@ def cases(tier):
     for k in (1, 2, 3):
         for w in words(3):
             if k == 1 and len(w.replace("r", "")) > 2:
-                continue  # three recomputations in a row take minutes (measured): thorough tier only
+                continue  # three recomputations in a row do not finish within 15 min per word (measured): not claimed in either tier
             add(k, w, 1)
     if tier == "thorough":
         for w in words(3):
             add(4, w, 1)                                   # update_weights_every = 4
-            if len(w.replace("r", "")) > 2:
-                add(1, w, 1)                               # three recomputations in a row
+            # update_weights_every = 1 with three calls (three recomputations in a row, each conditioned on the previous one's symbolic answer) does not
+            # finish within 15 min per word (measured: k1_aba_it1 truncated at 900 s): not claimed; k = 1 is covered for words with <= 2 calls
         for k in (2, 3):
             for w in words(4):
                 if len(w) == 4 and w.count("r") == 1:
